@@ -1929,3 +1929,27 @@ E('C08', 'run-tasks-cancels-unconditionally', SIM, '''            for _, task, _
                 if not task.done():
                     task.cancel()''', '''            for _, task, _ in btt_list:
                 task.cancel()''')
+
+# ---- bugs hidden inside a refactoring: the normalisation (E12) must not undo them
+V('C06', 'stale-readiness-snapshot', ADD, '''        try:
+            retval = super().event(etype, **data)
+        except Exception:
+            if self.persistent and not self.circuit.is_ready():''', '''        was_ready = self.circuit.is_ready()
+        try:
+            retval = super().event(etype, **data)
+        except Exception:
+            if self.persistent and not was_ready:''', 'R06.1',
+  note='explaining variable taken BEFORE the handler runs: the snapshot is stale after the abort')
+VM('C09', 'stale-error-snapshot-raised', [(SIM, """        started_blocks = set()
+        start_ok = False
+        try:
+            if self._error is not None:""", """        started_blocks = set()
+        start_ok = False
+        first_error = self._error
+        try:
+            if self._error is not None:"""),
+    (SIM, """        assert self._error is not None
+        raise self._error
+""", """        assert self._error is not None
+        raise first_error
+""")], 'R09.2', note='snapshot of the error slot taken before the main try: stale')
